@@ -219,10 +219,13 @@ class Sock(ThreadSocket):
         k = tuple(key_json(self.key))
         self._sched.cb_store.setdefault(k, []).append(decode(msg))
         self._sched.delivery.setdefault(k, []).append(("cb", decode(msg)))
-        w = threading.current_thread()
-        ev = getattr(w, "cur_send", None)
-        if ev is not None:          # the callback runs inside the sender's `send`
+        # which incarnation's callback ran; attributed to the send of the calling thread when it is that message
+        # (always, on the code as it is), otherwise matched after the run (`_sends_and_incs`)
+        ev = getattr(threading.current_thread(), "cur_send", None)
+        mine = ev is not None and ev["key"] == k and ev["m"] == decode(msg) and ev["path"] is None
+        if mine:
             ev["path"], ev["target"] = "cb", self
+        self._sched.cb_log.setdefault(k, []).append((decode(msg), self, mine))
 
     def conn_lost_callback(self):
         self._sched.lost_log.append(key_json(self.key))
@@ -252,14 +255,14 @@ class Worker(threading.Thread):
     # -- tracing
     def gtrace(self, frame, event, arg):
         co = frame.f_code
-        if co.co_filename == HUB_FILE and co.co_name in METHODS:
+        if co.co_filename == HUB_FILE and (self.sched.coarse or co.co_name in METHODS):
             return self.ltrace
         return None
 
     def ltrace(self, frame, event, arg):
         if event == "line":
             ln = frame.f_lineno
-            if ln in self.sched.line_kind:
+            if self.sched.coarse or ln in self.sched.line_kind:
                 if ln in self.sched.with_lines:
                     if ln in self.held:        # the line event of leaving the `with` block
                         self.held.discard(ln)
@@ -299,6 +302,10 @@ class Worker(threading.Thread):
 
     def do(self, op):
         s = self.sched
+        if op[0] == "b":            # harness-level barrier (coarse exploration): wait for the scheduler
+            self.cur_op, self.cur_key, self.cur_nonblock = "b", None, False
+            self.park(BARRIER)
+            return
         kind, rn, sid = op[0], op[1], op[2]
         key = (node_name(self.tid), node_name(rn), sid)
         kj = key_json(key)
@@ -332,6 +339,10 @@ class Worker(threading.Thread):
                 ev["ok"] = True
             except ConnectionError:
                 self.res.append(["connErr", kj, m])
+            except Exception as e:  # noqa  -- the hub itself failed: a finding, not a harness error
+                self.res.append(["raised", kj, type(e).__name__])
+                s.unexpected.append({"thread": self.tid, "op": "send %d on %s" % (m, kj),
+                                     "error": "%s: %s" % (type(e).__name__, e)})
             ev["end"] = s.clock
             s.sends.append(ev)
             self.cur_send = None
@@ -367,13 +378,29 @@ class Worker(threading.Thread):
             raise ValueError(op)
 
 
+BARRIER = -1
+
+
+def all_lock_lines(path=None):
+    """every `with …_lock…:` line of socket_hub.py (model-free: no knowledge of the methods)"""
+    tree = ast.parse(open(path or HUB_FILE).read())
+    return {n.lineno for n in ast.walk(tree) if isinstance(n, ast.With) and
+            any("_lock" in _src(i.context_expr) for i in n.items)}
+
+
 class Scheduler:
-    def __init__(self, progs, structured_ids=()):
-        self.line_kind, self.with_lines, _ = LOCATED
+    def __init__(self, progs, structured_ids=(), coarse=False):
+        """coarse=True: model-free mode — every line of socket_hub.py (any function) is a scheduling point"""
+        self.coarse = coarse
+        if coarse:
+            self.line_kind, self.with_lines = {}, all_lock_lines()
+        else:
+            self.line_kind, self.with_lines, _ = LOCATED
         self.cv = threading.Condition()
         self.cb_store, self.delivery, self.lost_log, self.all_socks = {}, {}, [], []
         self.clock = 0              # number of completed steps
-        self.incarnations, self.sends = {}, []
+        self.incarnations, self.sends, self.cb_log = {}, [], {}
+        self.unexpected = []
         self._structured = set(structured_ids)
         SH._SocketHub._CONNECT_SLEEP_TIME = 0
         SH._SocketHub._RECV_SLEEP_TIME = 0
@@ -392,13 +419,21 @@ class Scheduler:
 
     def kind(self, tid):
         w = self.workers[tid]
-        return None if w.done else self.line_kind[w.line]
+        if w.done:
+            return None
+        if self.coarse:
+            return "barrier" if w.line == BARRIER else ("xLock" if w.line in self.with_lines else "line")
+        return self.line_kind[w.line]
+
+    def at_barrier(self, tid):
+        w = self.workers[tid]
+        return not w.done and w.line == BARRIER
 
     def enabled(self, tid):
         w = self.workers[tid]
         if w.done:
             return False
-        return not (self.line_kind[w.line] in LOCK_KINDS and self.hub._lock.locked())
+        return not (self.kind(tid) in LOCK_KINDS and self.hub._lock.locked())
 
     def step(self, tid):
         w = self.workers[tid]
@@ -450,6 +485,7 @@ class Scheduler:
         # freshly reset hub, not the hub of a later case)
         self.all_socks.clear()
         self.incarnations.clear()
+        self.cb_log.clear()
         for ev in self.sends:
             ev["target"] = None
         for w in self.workers:
@@ -489,6 +525,31 @@ def ops_json(prog):
 # ------------------------------------------------------------------ running one case
 
 
+def _sends_and_incs(sc):
+    """picklable incarnation table and send events; the delivery path of a send is attributed AFTER the run:
+    per channel the callback log is matched in order against the successful sends (whichever thread ran the
+    callback), everything else went to the queue path (or nowhere: the exactly-once rule catches that)"""
+    incs = {k: [{"cb": so.inc_cb, "open": so.t_open, "close_start": so.t_close_start, "closed": so.t_closed}
+                for so in v] for k, v in sc.incarnations.items()}
+    loose = {k: [e for e in v if not e[2]] for k, v in sc.cb_log.items()}   # callbacks run by another thread
+    sends = []
+    for ev in sc.sends:
+        k = ev["key"]
+        lst = sc.incarnations.get(k, [])
+        path, ti = None, None
+        if ev["path"] == "cb":
+            path, ti = "cb", (lst.index(ev["target"]) if ev["target"] in lst else -1)
+        elif ev["ok"]:
+            for j, e in enumerate(loose.get(k, [])):
+                if e[0] == ev["m"]:
+                    path, ti = "cb", (lst.index(e[1]) if e[1] in lst else -1)
+                    del loose[k][j]
+                    break
+        sends.append({"key": k, "m": ev["m"], "start": ev["start"], "end": ev["end"], "ok": ev["ok"],
+                      "path": path, "target_inc": ti})
+    return incs, sends
+
+
 def run_case(progs, policy, structured_ids=(), max_steps=400):
     """policy(sched, i, last) -> tid or None (stop). Returns a dict with the schedule actually executed,
     the real snapshots (initial + after every step) and what the oracle needs."""
@@ -516,23 +577,14 @@ def run_case(progs, policy, structured_ids=(), max_steps=400):
         nb_blocked = [(w.tid, w.cur_key, w.count - w.op_start) for w in sc.workers
                       if not w.done and w.cur_nonblock and w.count - w.op_start >= 8]
         workers = sc.workers
-        incs = {k: [{"cb": so.inc_cb, "open": so.t_open, "close_start": so.t_close_start, "closed": so.t_closed}
-                    for so in v] for k, v in sc.incarnations.items()}
-        sends = []
-        for ev in sc.sends:
-            tgt = ev["target"]
-            ti = None
-            if tgt is not None:
-                ti = sc.incarnations.get(ev["key"], []).index(tgt) if tgt in sc.incarnations.get(ev["key"], []) else -1
-            sends.append({"key": ev["key"], "m": ev["m"], "start": ev["start"], "end": ev["end"], "ok": ev["ok"],
-                          "path": ev["path"], "target_inc": ti})
+        incs, sends = _sends_and_incs(sc)
     finally:
         final_queues = sc.finish()
     return {"progs": progs, "structured": sorted(structured_ids), "schedule": schedule, "snaps": snaps,
             "final_queues": final_queues, "delivery": sc.delivery, "cb_store": sc.cb_store,
             "res": [w.res for w in workers], "inflight": [w.inflight for w in workers],
             "nb_seen": [x for w in workers for x in w.nb_seen],
-            "incarnations": incs, "sends": sends,
+            "incarnations": incs, "sends": sends, "unexpected": list(sc.unexpected),
             "stuck_in_connect": stuck_in_connect, "nb_blocked": nb_blocked, "ever_open_at": ever_open_at,
             "steps_of": [schedule.count(t) for t in range(len(progs))]}
 
@@ -607,6 +659,8 @@ def oracle(case, settle_steps):
         if not ok:
             fails.append({"what": "channel %s: delivered %s + queued %s is not the sent sequence %s "
                                   "(exactly once, in order; message 0 is the empty string \"\")" % (list(k), dl, q, sent), "key": list(k)})
+    for u in case.get("unexpected", []):
+        fails.append({"what": "thread %d: %s raised %s inside the hub" % (u["thread"], u["op"], u["error"]), "key": None})
     # every message goes to the incarnation of the receiving key that is open while it is sent
     for ev in case["sends"]:
         if not ev["ok"]:
@@ -781,6 +835,134 @@ def explore(progs, structured=(), max_preempt=2, step_cap=160, deadline=None):
     base, _ = run({})
     complete = rec({}, base, 0, 0)
     return out, complete
+
+
+# ------------------------------------------------------------------ model-free exploration at every-line granularity
+
+
+def coarse_scenarios():
+    """endpoint programs for the model-free stream: concurrent senders towards callback (and plain) receivers;
+    ("b",) is a harness barrier: everything before it (the connects) is run fairly, the exploration starts after"""
+    B = ("b",)
+    return [
+        # two senders, one endpoint with two callback sockets
+        [[("c", 2, 0, 0), B, ("s", 2, 0, 1), ("s", 2, 0, 2)], [("c", 2, 0, 0), B, ("s", 2, 0, 3)],
+         [("c", 0, 0, 1), ("c", 1, 0, 1), B]],
+        # two endpoints, both callback sockets, both send
+        [[("c", 1, 0, 1), B, ("s", 1, 0, 1)], [("c", 0, 0, 1), B, ("s", 0, 0, 2), ("s", 0, 0, 3)]],
+        # two senders, plain receiver that polls
+        [[("c", 2, 0, 0), B, ("s", 2, 0, 1), ("s", 2, 0, 0)], [("c", 2, 0, 0), B, ("s", 2, 0, 3)],
+         [("c", 0, 0, 0), ("c", 1, 0, 0), B, ("r", 0, 0, 0), ("r", 1, 0, 0), ("r", 0, 0, 0)]],
+        # one callback socket, one plain socket on the receiving endpoint
+        [[("c", 2, 0, 0), B, ("s", 2, 0, 1)], [("c", 2, 0, 0), B, ("s", 2, 0, 2), ("s", 2, 0, 3)],
+         [("c", 0, 0, 1), ("c", 1, 0, 0), B, ("r", 1, 0, 0), ("r", 1, 0, 0)]],
+        # two socket ids between the same pair, callback receivers, senders in both directions
+        [[("c", 1, 0, 1), ("c", 1, 1, 1), B, ("s", 1, 0, 1), ("s", 1, 1, 2)],
+         [("c", 0, 0, 1), ("c", 0, 1, 1), B, ("s", 0, 1, 3), ("s", 0, 0, 4)]],
+    ]
+
+
+def coarse_run(progs, preempt, step_cap=600):
+    """Run `progs` on the real hub with EVERY line of socket_hub.py as a scheduling point. Connect phase:
+    round-robin up to the barrier. Then: threads run to completion in thread order, except that at step i
+    (counted from the barrier) the scheduler switches to thread preempt[i]. Returns an oracle-ready case."""
+    sc = Scheduler(progs, (), coarse=True)
+    n = len(progs)
+    schedule, trace = [], []
+    try:
+        guard = 0
+        while True:
+            act = [t for t in range(n) if not sc.workers[t].done and not sc.at_barrier(t)]
+            if not act:
+                break
+            progressed = False
+            for t in act:
+                if sc.enabled(t) and not sc.at_barrier(t):
+                    sc.step(t)
+                    progressed = True
+            guard += 1
+            if guard > 4000 or not progressed:
+                raise Stuck("coarse setup phase does not reach the barrier")
+        cur, i = None, 0
+        while i < step_cap:
+            en = [t for t in range(n) if sc.enabled(t)]
+            if not en:
+                break
+            if i in preempt and preempt[i] in en:
+                cur = preempt[i]
+            elif cur is None or cur not in en:
+                cur = en[0]
+            trace.append((cur, [t for t in en if t != cur]))
+            sc.step(cur)
+            schedule.append(cur)
+            i += 1
+        workers = sc.workers
+        incs, sends = _sends_and_incs(sc)
+        unfinished = [w.tid for w in workers if not w.done]
+    finally:
+        final_queues = sc.finish()
+    return {"progs": [[op for op in p if op[0] != "b"] for p in progs], "structured": [], "schedule": schedule,
+            "preempt": sorted(preempt.items()), "trace": trace, "snaps": [],
+            "final_queues": final_queues, "delivery": sc.delivery, "cb_store": sc.cb_store,
+            "res": [w.res for w in workers], "inflight": [w.inflight for w in workers],
+            "nb_seen": [x for w in workers for x in w.nb_seen], "incarnations": incs, "sends": sends,
+            "unexpected": list(sc.unexpected), "stuck_in_connect": [], "nb_blocked": [], "ever_open_at": {}, "unfinished": unfinished}
+
+
+def coarse_oracle(case):
+    fails = oracle(case, 0)
+    if case["unfinished"]:
+        fails.append({"what": "threads %s did not finish their sends / non-blocking receives" % case["unfinished"],
+                      "key": None})
+    return fails
+
+
+def worker_coarse(args):
+    """model-free: all schedules with one forced switch after the barrier + `n_two` random ones with two"""
+    scen_ids, n_two, seed, deadline = args
+    import random
+    import time
+    import traceback
+    summary = _new_summary()
+    rng = random.Random(seed)
+    try:
+        scen = coarse_scenarios()
+        for si in scen_ids:
+            progs = scen[si]
+            base = coarse_run(progs, {})
+            runs = [base]
+            for i, (_, alts) in enumerate(base["trace"]):
+                for t in alts:
+                    if time.time() > deadline:
+                        break
+                    runs.append(coarse_run(progs, {i: t}))
+            for _ in range(n_two):
+                if time.time() > deadline or len(base["trace"]) < 2:
+                    break
+                i = rng.randrange(len(base["trace"]))
+                j = rng.randrange(i + 1, len(base["trace"]) + 8)
+                n = len(progs)
+                runs.append(coarse_run(progs, {i: rng.randrange(n), j: rng.randrange(n)}))
+            for c in runs:
+                summary["evaluations"] += 1
+                summary["steps"] += len(c["schedule"])
+                summary["dist"]["coarse-every-line-schedules"] = summary["dist"].get("coarse-every-line-schedules", 0) + 1
+                summary["nontrivial"].add(json.dumps(["coarse", si, c["preempt"]]))
+                for f in coarse_oracle(c):
+                    if len(summary["failures"]) < 5:
+                        summary["failures"].append({"what": f["what"] + " [every line of socket_hub.py is a "
+                                                    "scheduling point]", "kf": None, "input": {
+                            "progs (b = barrier after the connects)": progs, "forced switches after the barrier":
+                            c["preempt"], "schedule after the barrier": c["schedule"], "key": f["key"]}})
+                    else:
+                        summary["n_failures_more"] += 1
+    except Stuck as e:
+        summary["dist"]["coarse-stuck"] = summary["dist"].get("coarse-stuck", 0) + 1
+        summary["error_note"] = "Stuck: %s" % e
+    except Exception:
+        summary["error"] = traceback.format_exc()
+    summary["nontrivial"] = sorted(summary["nontrivial"])
+    return summary
 
 
 # ------------------------------------------------------------------ workers (one process each)
